@@ -834,4 +834,50 @@ theorem vSort_length (xs : List Val) : (vSort xs).length = xs.length := by
   | nil => rfl
   | cons x xs ih => simp [vSort, List.foldr_cons, insertSorted_length] at ih ⊢; exact ih
 
+/-- operations whose result must not share any cell with an existing list -/
+def Op.freshResult : Op → Bool
+  | .lit .. | .butlast .. | .subseq .. | .copyList .. | .reverse .. | .mapcar .. => true
+  | _ => false
+
+/-- operations whose result is a tail of (or is) their list argument -/
+def Op.tailResult : Op → Bool
+  | .alias .. | .nthcdr .. | .last .. | .member .. => true
+  | _ => false
+
+theorem allocList_nil_fresh (h : Heap) (vs : List Val) :
+    ∃ as, chain (allocList h vs .nil).1 vs.length (allocList h vs .nil).2 = some as ∧ ∀ a ∈ as, h.length ≤ a := by
+  obtain ⟨fresh, hc, _, hf, _⟩ := allocList_spec (h := h) (n := 0) (tail := .nil) (ts := []) (by simp [chain]) vs
+  exact ⟨fresh, by simpa using hc, hf⟩
+
+theorem insertSorted_perm (v : Val) (xs : List Val) : (insertSorted v xs).Perm (v :: xs) := by
+  induction xs with
+  | nil => exact List.Perm.refl _
+  | cons x xs ih =>
+    unfold insertSorted
+    split
+    · exact List.Perm.refl _
+    · exact (List.Perm.cons x ih).trans (List.Perm.swap v x xs)
+
+theorem insertSorted_sorted (v : Val) {xs : List Val} (hs : xs.Pairwise (· ≤ ·)) :
+    (insertSorted v xs).Pairwise (· ≤ ·) := by
+  induction xs with
+  | nil => simp [insertSorted]
+  | cons x xs ih =>
+    unfold insertSorted
+    have hx := List.pairwise_cons.mp hs
+    split
+    · rename_i hle
+      refine List.pairwise_cons.mpr ⟨?_, hs⟩
+      intro y hy
+      rcases List.mem_cons.mp hy with h1 | h1
+      · subst h1; exact hle
+      · exact Int.le_trans hle (hx.1 y h1)
+    · rename_i hnle
+      refine List.pairwise_cons.mpr ⟨?_, ih hx.2⟩
+      intro y hy
+      have := (insertSorted_perm v xs).mem_iff.mp hy
+      rcases List.mem_cons.mp this with h1 | h1
+      · subst h1; exact Int.le_of_lt (Int.not_le.mp hnle)
+      · exact hx.1 y h1
+
 end SlipVerif.ListHeap
